@@ -43,6 +43,8 @@ CONSTANTS
     ShapeSel,      \* value-class programs: shapes 1..6
     GenSel,        \* generated-line programs: which block of generated lines ({} = free programs)
     PreSel,        \* generated-line programs: directive put before the line (0 = none)
+    ExpSel,        \* expansion programs: {} = not this shape, else the user-line choices (0 = none)
+    ExpandOrder,   \* "single" = the rule; "tokenv" / "envtok" = two passes (WRONG, see ExpandVal)
     CanonSel,      \* generated-line programs: canonicalisation settings put first (0 = none)
     ExecAlways,    \* sensitivity: "exec" is run although an earlier criterion failed (WRONG)
     FinalShortCut  \* sensitivity: "final" only counts if the criteria before it hold (WRONG)
@@ -87,7 +89,10 @@ TgtMenu == <<
     [host |-> hb, user |-> ub,   mode |-> "plain"],     \* 4
     [host |-> ha, user |-> <<>>, mode |-> "canon"],     \* 5
     [host |-> hb, user |-> ua,   mode |-> "canon"],     \* 6
-    [host |-> <<"h", ".", "a">>, user |-> <<>>, mode |-> "plain"]   \* 7 (a dot: CanonicalizeMaxDots)
+    [host |-> <<"h", ".", "a">>, user |-> <<>>, mode |-> "plain"],  \* 7 (a dot: CanonicalizeMaxDots)
+    [host |-> ha, user |-> <<"u", "$", "{", "C", "F", "G", "V", "}">>, mode |-> "plain"],  \* 8 user with ${VAR}
+    [host |-> ha, user |-> <<"a", "%", "h">>, mode |-> "plain"],                          \* 9 user with a token
+    [host |-> <<"h", "%", "%", "x">>, user |-> <<>>, mode |-> "plain"]                    \* 10 host with %%
 >>
 
 -----------------------------------------------------------------------------
@@ -331,9 +336,42 @@ GenF == <<
     Cr(FALSE, "execf", <<>>)
 >>
 GenFT == <<GenF[1], GenF[5], GenF[8]>>
-GenBlocks == <<Gen2(GenC), Gen3(GenT), GenHost, Gen2(GenS), TypedMenu, Gen2(GenF), Gen3(GenFT)>>
+(* Expansion (block 8): every expanding option x templates made of literal / %token / %% *)
+(* / ${VAR} pieces, with token values (user, host) and environment values that contain    *)
+(* the same syntax again.                                                                 *)
+Tpl == <<
+    <<"/", "k", "/", "%", "r">>,                                                   \* /k/%r
+    <<"/", "k", "/", "$", "{", "K", "E", "Y", "P", "}", "/", "%", "h">>,           \* /k/${KEYP}/%h
+    <<"/", "k", "/", "$", "{", "P", "C", "T", "}">>,                               \* /k/${PCT}
+    <<"/", "k", "/", "$", "{", "D", "B", "L", "}", "-", "%", "%", "-", "%", "h">>, \* /k/${DBL}-%%-%h
+    <<"/", "k", "/", "$", "{", "N", "E", "S", "T", "}">>,                          \* /k/${NEST}
+    <<"/", "k", "/", "%", "r", "-", "$", "{", "C", "F", "G", "V", "}">>,           \* /k/%r-${CFGV}
+    <<"/", "k", "/", "$", "{", "D", "O", "L", "}", "$", "x", "%", "%", "h">>,      \* /k/${DOL}$x%%h
+    <<"/", "k", "/", "%", "n", "}", "-", "%", "r", "}">>                           \* /k/%n}-%r}
+>>
+XOpts == <<"IdentityFile", "CertificateFile", "IdentityAgent", "ForwardAgent", "RemoteCommand",
+           "ProxyCommand">>
+ExpMenu ==
+    [i \in 1..(Len(XOpts) * Len(Tpl)) |->
+        LET o == XOpts[((i - 1) \div Len(Tpl)) + 1]
+            t == Tpl[((i - 1) % Len(Tpl)) + 1]
+        IN  IF o = "IdentityFile" THEN OptD(o, <<t>>, 1)
+            ELSE TV(o, IF o = "CertificateFile" THEN "appx" ELSE "setx", t, t)] \o
+    <<OptD("User", <<<<"a", "%", "h">>>>, 1),                                      \* User a%h
+      OptD("User", <<<<"u", "$", "{", "C", "F", "G", "V", "}">>>>, 1),             \* User u${CFGV}
+      OptD("User", <<<<"p", "%", "%", "q">>>>, 1),                                 \* User p%%q
+      OptD("User", <<<<"w", "$", "{", "C", "F", "G", "V">>>>, 1),                  \* User w${CFGV  (closed by the template)
+      \* server side
+      OptD("AuthorizedKeysFile", <<<<"@BASE@", "/", "%", "u", "/", "$", "{", "K", "E", "Y", "P", "}">>>>, 1),
+      OptD("AuthorizedKeysFile", <<<<"@BASE@", "/", "$", "{", "P", "C", "T", "}", "/", "%", "u">>>>, 1),
+      OptD("AuthorizedKeysFile", <<<<"@BASE@", "/", "$", "{", "N", "E", "S", "T", "}", "/", "%", "%", "u">>,
+                                   <<"@BASE@", "/", "$", "{", "D", "B", "L", "}", "%", "u">>>>, 1),
+      OptD("AuthorizedKeysFile", <<<<"@BASE@", "/", "%", "u", "}", "$", "{", "C", "F", "G", "V", "}">>>>, 1)>>
+NExpCli == Len(XOpts) * Len(Tpl)
+
+GenBlocks == <<Gen2(GenC), Gen3(GenT), GenHost, Gen2(GenS), TypedMenu, Gen2(GenF), Gen3(GenFT), ExpMenu>>
 DirMenu == StaticMenu \o GenBlocks[1] \o GenBlocks[2] \o GenBlocks[3] \o GenBlocks[4] \o GenBlocks[5]
-                      \o GenBlocks[6] \o GenBlocks[7]
+                      \o GenBlocks[6] \o GenBlocks[7] \o GenBlocks[8]
 NDir == Len(DirMenu)
 RECURSIVE BlockStart(_)
 BlockStart(b) == IF b = 1 THEN NStatic ELSE BlockStart(b - 1) + Len(GenBlocks[b - 1])
@@ -401,7 +439,15 @@ ExpandTok(s, tk) ==
          THEN TokVal(s[2], tk) \o ExpandTok(SubSeq(s, 3, Len(s)), tk)
     ELSE <<Head(s)>> \o ExpandTok(Tail(s), tk)
 
-EnvVal(name) == IF name = <<"C", "F", "G", "V">> THEN <<"e", "v">> ELSE <<ERR>>
+(* the environment; the VALUES contain the syntax again: nothing substituted is rescanned *)
+EnvVal(name) ==
+    CASE name = <<"C", "F", "G", "V">> -> <<"e", "v">>
+      [] name = <<"K", "E", "Y", "P">> -> <<"/", "v", "/", "%", "h">>              \* a token
+      [] name = <<"P", "C", "T">>      -> <<"1", "0", "0", "%", "/", "t">>         \* a lone %
+      [] name = <<"D", "B", "L">>      -> <<"a", "%", "%", "b">>                   \* %%
+      [] name = <<"N", "E", "S", "T">> -> <<"$", "{", "C", "F", "G", "V", "}">>    \* ${VAR}
+      [] name = <<"D", "O", "L">>      -> <<"a", "$", "b">>
+      [] OTHER -> <<ERR>>
 RECURSIVE ExpandEnv(_)
 ExpandEnv(s) ==
     IF s = <<>> THEN <<>>
@@ -409,13 +455,32 @@ ExpandEnv(s) ==
          THEN LET j == CHOOSE x \in 3..Len(s) : s[x] = "}" /\ \A y \in 3..(x-1) : s[y] # "}"
               IN  EnvVal(SubSeq(s, 3, j - 1)) \o ExpandEnv(SubSeq(s, j + 1, Len(s)))
     ELSE <<Head(s)>> \o ExpandEnv(Tail(s))
-ExpandVal(s, tk) == ExpandEnv(ExpandTok(s, tk))
+(* THE RULE (ssh percent_dollar_expand): one pass from left to right over the value; *)
+(* %c and ${NAME} are replaced, what was substituted is never looked at again         *)
+RECURSIVE ExpandOne(_, _)
+ExpandOne(s, tk) ==
+    IF s = <<>> THEN <<>>
+    ELSE IF Head(s) = "%" /\ Len(s) >= 2
+         THEN TokVal(s[2], tk) \o ExpandOne(SubSeq(s, 3, Len(s)), tk)
+    ELSE IF Len(s) >= 3 /\ s[1] = "$" /\ s[2] = "{" /\ \E j \in 3..Len(s) : s[j] = "}"
+         THEN LET j == CHOOSE x \in 3..Len(s) : s[x] = "}" /\ \A y \in 3..(x-1) : s[y] # "}"
+              IN  EnvVal(SubSeq(s, 3, j - 1)) \o ExpandOne(SubSeq(s, j + 1, Len(s)), tk)
+    ELSE <<Head(s)>> \o ExpandOne(Tail(s), tk)
+(* two-pass variants: "tokenv" tokens, then ${} over the result (token values are   *)
+(* rescanned for ${}); "envtok" ${} first, then tokens (environment values are       *)
+(* rescanned for %)                                                                   *)
+ExpandVal(s, tk, fl) ==
+    LET ord == IF fl.e THEN "tokenv" ELSE IF fl.o = "single" THEN "single" ELSE ExpandOrder
+    IN  CASE ord = "single" -> ExpandOne(s, tk)
+          [] ord = "tokenv" -> ExpandEnv(ExpandTok(s, tk))
+          [] ord = "envtok" -> ExpandTok(ExpandEnv(s), tk)
 HasErr(s) == \E i \in 1..Len(s) : s[i] = ERR
 
 -----------------------------------------------------------------------------
 (* interpreter *)
 St0(user) == [m |-> TRUE, port |-> <<>>, user |-> user, hostname |-> <<>>, tag |-> <<>>,
               idf |-> <<>>, env |-> <<>>, ukh |-> <<>>, akf |-> <<>>, fin |-> FALSE,
+              tx |-> <<>>,         \* tx: <<name, values>> of the other options that are expanded
               ex |-> <<>>,         \* ex: the "Match exec" commands run so far, in order
               t |-> <<>>]          \* t: <<name, denotation>> of the typed options, in order of first use
 
@@ -472,7 +537,7 @@ Assign(st, d, cx) ==
       [] d.n = "Tag"      -> IF st.tag = <<>> THEN [st EXCEPT !.tag = d.v[1]] ELSE st
       [] d.n = "Hostname" ->
            IF st.hostname = <<>>
-           THEN [st EXCEPT !.hostname = ExpandVal(d.v[1], ("%" :> <<"%">>) @@ ("h" :> cx.host))]
+           THEN [st EXCEPT !.hostname = ExpandVal(d.v[1], ("%" :> <<"%">>) @@ ("h" :> cx.host), cx.flags)]
            ELSE st
       [] d.n = "IdentityFile" ->
            IF IsNoneText(d.v[1]) THEN st            \* "none" adds no file
@@ -499,8 +564,21 @@ TAssign(st, d) ==
 
 ExpandAll(st, cx) ==
     LET tk == Tokens(st, cx) IN
-    [st EXCEPT !.idf = [i \in 1..Len(st.idf) |-> ExpandVal(st.idf[i], tk)],
-               !.akf = [i \in 1..Len(st.akf) |-> ExpandVal(st.akf[i], tk)]]
+    [st EXCEPT !.idf = [i \in 1..Len(st.idf) |-> ExpandVal(st.idf[i], tk, cx.flags)],
+               !.akf = [i \in 1..Len(st.akf) |-> ExpandVal(st.akf[i], tk, cx.flags)],
+               !.tx  = [i \in 1..Len(st.tx) |->
+                          <<st.tx[i][1], [j \in 1..Len(st.tx[i][2]) |->
+                                            ExpandVal(st.tx[i][2][j], tk, cx.flags)]>>]]
+
+(* expanded options other than IdentityFile: "setx" first value wins ("none": no value), *)
+(* "appx" values accumulate ("none" adds nothing)                                          *)
+TXAssign(st, d) ==
+    LET at == {i \in 1..Len(st.tx) : st.tx[i][1] = d.n}
+        k  == IF at = {} THEN 0 ELSE CHOOSE i \in at : TRUE
+        v  == IF IsNoneText(d.den) THEN <<>> ELSE <<d.den>>
+    IN  IF k = 0 THEN [st EXCEPT !.tx = Append(@, <<d.n, v>>)]
+        ELSE IF d.ty = "appx" THEN [st EXCEPT !.tx[k] = <<d.n, st.tx[k][2] \o v>>]
+        ELSE st
 
 RECURSIVE RunLines(_, _, _, _)
 RECURSIVE RunFiles(_, _, _, _)
@@ -519,6 +597,7 @@ RunLines(lines, st, cx, prog) ==
                                            ELSE <<prog.a, prog.b>>
                                   after == RunFiles(files, st, cx, prog)
                               IN  IF SpliceLeaks THEN after ELSE [after EXCEPT !.m = TRUE]
+                    ELSE IF d.k = "topt" /\ d.ty \in {"setx", "appx"} THEN TXAssign(st, d)
                     ELSE IF d.k = "topt" THEN TAssign(st, d)
                     ELSE Assign(st, d, cx)
          IN  RunLines(Tail(lines), st2, cx, prog)
@@ -545,7 +624,7 @@ Cx(host, canonical, final, flags) ==
 
 Out(st, cx, expanded) ==
     LET s == IF expanded THEN st ELSE ExpandAll(st, cx) IN
-    <<HostNow(s, cx), PortNow(s), UserNow(s, cx), s.idf, s.env, s.ukh, s.tag, s.t, s.ex>>
+    <<HostNow(s, cx), PortNow(s), UserNow(s, cx), s.idf, s.env, s.ukh, s.tag, s.t, s.ex, s.tx>>
 
 (* the first pass alone (what SSHClientConfig.load returns) *)
 Eval1(prog, tgt, flags) ==
@@ -586,12 +665,14 @@ Eval(prog, tgt, flags) ==
                                       !.hostname = IF canon THEN cx2.host ELSE HostNow(s1, cx1)]),
                  cx2, flags.b)
 
-Rule == [a |-> FALSE, b |-> FALSE, c |-> FALSE, d |-> FALSE]
+Rule == [a |-> FALSE, b |-> FALSE, c |-> FALSE, d |-> FALSE, e |-> FALSE, o |-> ""]
+Single == [Rule EXCEPT !.o = "single"]
 (* d: an options object derived from another one expands the inherited values again *)
-AltFlags == LET all == {f \in [a : BOOLEAN, b : BOOLEAN, c : BOOLEAN, d : BOOLEAN] : f # Rule}
+(* e: tokens are expanded first and ${} is then looked for in the result as well *)
+AltFlags == LET all == {f \in [a : BOOLEAN, b : BOOLEAN, c : BOOLEAN, d : BOOLEAN, e : BOOLEAN, o : {""}] : f # Rule}
                 bits(f) == (IF f.a THEN 1 ELSE 0) + (IF f.b THEN 2 ELSE 0) + (IF f.c THEN 4 ELSE 0)
-                           + (IF f.d THEN 8 ELSE 0)
-            IN  [i \in 1..15 |-> CHOOSE f \in all : bits(f) = i]
+                           + (IF f.d THEN 8 ELSE 0) + (IF f.e THEN 16 ELSE 0)
+            IN  [i \in 1..31 |-> CHOOSE f \in all : bits(f) = i]
 
 -----------------------------------------------------------------------------
 (* server side *)
@@ -655,7 +736,14 @@ VProg(s, i, j) ==
       [] s = 5 -> [main |-> <<i>>,             a |-> <<>>,  b |-> <<j>>, x |-> "chain"]
       [] s = 6 -> [main |-> <<i>>,             a |-> <<>>,  b |-> <<j, 19, i>>, x |-> "chain"]
 ValProgs == UNION {{VProg(s, i, j) : s \in ShapeSel, i \in GroupOf(g), j \in GroupOf(g)} : g \in ValSel}
-Progs == IF ValSel # {} THEN ValProgs ELSE IF GenSel = {} THEN FreeProgs ELSE GenProgs
+(* expansion programs: [a User line,] one line of block 8 *)
+ExpLines == IF Mode = "cli" THEN (BlockStart(8) + 1)..(BlockStart(8) + NExpCli)
+            ELSE (BlockStart(8) + NExpCli + 5)..(BlockStart(8) + NExpCli + 8)
+ExpMains == (IF 0 \in ExpSel THEN {<<e>> : e \in ExpLines} ELSE {}) \cup
+            {<<BlockStart(8) + NExpCli + u, e>> : u \in ExpSel \ {0}, e \in ExpLines}
+ExpProgs == [main : ExpMains, a : {<<>>}, b : {<<>>}, x : {""}]
+Progs == IF ExpSel # {} THEN ExpProgs
+         ELSE IF ValSel # {} THEN ValProgs ELSE IF GenSel = {} THEN FreeProgs ELSE GenProgs
 UsesInc(p, f) == \E i \in 1..Len(p.main) : DirMenu[p.main[i]].k = "inc" /\ DirMenu[p.main[i]].f = f
 (* include files only vary when they are read *)
 WellFormed(p) ==
@@ -680,7 +768,8 @@ Init ==
        /\ WellFormed(kase.p) /\ Keep(kase.p)
        /\ ((TgtMenu[kase.t].mode = "canon" \/ UsesCanon(kase.p)) => CanonOK(kase.p))
     \/ /\ Mode = "srv"
-       /\ kase \in [p : Progs, t : IF GenSel # {} \/ ValSel # {} THEN TgtSel ELSE 1..Len(SrvUsers)]
+       /\ kase \in [p : Progs, t : IF GenSel # {} \/ ValSel # {} \/ ExpSel # {} THEN TgtSel
+                                   ELSE 1..Len(SrvUsers)]
        /\ WellFormed(kase.p) /\ Keep(kase.p)
 Next == UNCHANGED kase
 Spec == Init /\ [][Next]_vars
@@ -729,7 +818,8 @@ FirstWins ==
                   IN  S # {} /\ (d.ty = "set" => st.t[k][2] = d.den)
             /\ \A i \in 1..Len(kase.p.main) :
                   LET d == DirMenu[kase.p.main[i]] IN
-                  (d.k = "topt" /\ Holds(kase.p, i, cx)) => \E k \in 1..Len(st.t) : st.t[k][1] = d.n
+                  (d.k = "topt" /\ d.ty \in {"set", "app"} /\ Holds(kase.p, i, cx))
+                     => \E k \in 1..Len(st.t) : st.t[k][1] = d.n
 
 Accumulates ==
     (Mode = "cli" /\ NoInc(kase.p)) =>
@@ -782,6 +872,13 @@ ExecGuarded ==
             st == RunLines(kase.p.main, St0(TgtMenu[kase.t].user), cx, kase.p)
         IN  Len(st.ex) = ExecCount(kase.p, Len(kase.p.main), cx)
 
+(* expansion is one pass: the resolution equals the one obtained with the single-pass *)
+(* reference, whatever the token and environment values contain                       *)
+NoRescan ==
+    IF Mode = "cli"
+    THEN Eval1(kase.p, TgtMenu[kase.t], Rule) = Eval1(kase.p, TgtMenu[kase.t], Single)
+    ELSE SrvEval(kase.p, SrvUsers[kase.t], Rule) = SrvEval(kase.p, SrvUsers[kase.t], Single)
+
 (* the Host/Match lines of an included file do not reach the lines after the Include *)
 IncludeRestores ==
     Mode = "cli" =>
@@ -803,7 +900,8 @@ NoUnsafeExpansion ==
             r == SrvEval(kase.p, u, Rule)
         IN  /\ Unsafe(u) => r = <<<<"reject">>>>
             /\ ~Unsafe(u) =>
-                   \A i \in 1..Len(r) : r[i] = ExpandEnv(Subst(RawAkf(kase.p, u)[i], u))
+                   \A i \in 1..Len(r) : r[i] = ExpandOne(RawAkf(kase.p, u)[i],
+                                                          ("%" :> <<"%">>) @@ ("u" :> u))
             \* a safe name adds exactly one path component and no expansion syntax
             /\ ~Unsafe(u) => /\ \A i \in 1..Len(u) : u[i] \notin {"/", "\\"}
                              /\ u # <<".", ".">>
@@ -821,11 +919,14 @@ SensA(p, t) == t.mode = "canon" \/ HasFinalCrit(p) \/ UsesCanon(p)
 SensB(p, t) == UsesInc(p, "A") \/ UsesInc(p, "G") \/ SensA(p, t) \/ p.x = "list"
 SensC(p)    == UsesInc(p, "G")
 SensD(p)    == p.x = "chain"
+HasDollar(s) == \E i \in 1..Len(s) : s[i] = "$"
+SensE(p, t) == HasDollar(t.user) \/ HasDollar(t.host) \/
+               \E i \in 1..Len(p.main) : DirMenu[p.main[i]].n = "User" /\ HasDollar(DirMenu[p.main[i]].v[1])
 Alts(p, t, first) ==
     SelectSeq(AltFlags, LAMBDA f : /\ (f.a => (~first /\ SensA(p, t)))
                                    /\ (f.b => SensB(p, t)) /\ (f.c => SensC(p))
-                                   /\ (f.d => SensD(p)))
-FlagBits(f) == B2N(f.a) + 2 * B2N(f.b) + 4 * B2N(f.c) + 8 * B2N(f.d)
+                                   /\ (f.d => SensD(p)) /\ (f.e => SensE(p, t)))
+FlagBits(f) == B2N(f.a) + 2 * B2N(f.b) + 4 * B2N(f.c) + 8 * B2N(f.d) + 16 * B2N(f.e)
 EmitCli ==
     LET t == TgtMenu[kase.t]
         r == Eval(kase.p, t, Rule)
@@ -836,11 +937,11 @@ EmitCli ==
         alts1 == SelectSeq([i \in 1..Len(af1) |-> <<FlagBits(af1[i]), Eval1(kase.p, t, af1[i])>>],
                            LAMBDA x : x[2] # Eval1(kase.p, t, Rule))
     IN  PrintT(<<"cli", kase.p.main, kase.p.a, kase.p.b, kase.t, Eval1(kase.p, t, Rule), r, alts1, alts,
-                 kase.p.x>>)
+                 kase.p.x, B2N(ExpSel # {})>>)
 EmitSrv ==
     LET u == SrvUsers[kase.t]
         r == SrvEval(kase.p, u, Rule)
-        af == SelectSeq(AltFlags, LAMBDA f : ~f.a /\ ~f.d
+        af == SelectSeq(AltFlags, LAMBDA f : ~f.a /\ ~f.d /\ ~f.e
                                               /\ (f.b => UsesInc(kase.p, "A") \/ UsesInc(kase.p, "G")
                                                            \/ kase.p.x = "list")
                                               /\ (f.c => UsesInc(kase.p, "G")))
